@@ -542,6 +542,8 @@ func c07randomCase(c *Ctx, id string, rng *rand.Rand, bs []*model.Batch, modes [
 	pls := make([]segment.PostingsList, 3)
 	its := make([]segment.PostingsIterator, 3)
 	var susp *c07suspended
+	lastLive := make([][]*model.Hit, 3)
+	lastWhere := make([]string, 3)
 	reqs := c.N(300, 600)
 	for q := 0; q < reqs; q++ {
 		t := ts[rng.Intn(len(ts))]
@@ -592,7 +594,15 @@ func c07randomCase(c *Ctx, id string, rng *rand.Rand, bs []*model.Batch, modes [
 			c.R.Fail("dict-err", "%s: %v", where, err)
 			return
 		}
-		pl, err := dict.PostingsList([]byte(term), ex, pls[slot])
+		// every fourth request gets a new list object while the iterator of the slot's
+		// earlier list is still handed in as preallocation: the earlier list stays alive
+		// and must stay what it was
+		preList := pls[slot]
+		var earlier segment.PostingsList
+		if q%4 == 3 && preList != nil && its[slot] != nil && lastLive[slot] != nil {
+			earlier, preList = preList, nil
+		}
+		pl, err := dict.PostingsList([]byte(term), ex, preList)
 		if err != nil || pl == nil {
 			c.R.Fail("pl-err", "%s: %v", where, err)
 			return
@@ -604,6 +614,23 @@ func c07randomCase(c *Ctx, id string, rng *rand.Rand, bs []*model.Batch, modes [
 		it := pl.Iterator(fl[0], fl[1], fl[2], its[slot])
 		its[slot] = it
 		c.R.Inc("c07_reuse_requests", 1)
+		if earlier != nil {
+			want := lastLive[slot]
+			if earlier.Count() != uint64(len(want)) {
+				c.R.Fail("earlier-list-changed", "%s: the list whose iterator was recycled (%s) now has Count %d, had %d", where, lastWhere[slot], earlier.Count(), len(want))
+			} else {
+				eit := earlier.Iterator(false, false, false, nil)
+				for k := range want {
+					po, err := eit.Next()
+					if err != nil || po == nil || po.Number() != want[k].Doc {
+						c.R.Fail("earlier-list-changed", "%s: the list whose iterator was recycled (%s) yields %v, %v as hit %d, want doc %d", where, lastWhere[slot], po, err, k, want[k].Doc)
+						break
+					}
+				}
+			}
+			c.R.Inc("c07_earlier_lists_rechecked", 1)
+		}
+		lastLive[slot], lastWhere[slot] = live, where
 		if oi, ok := it.(optIter); ok && len(live) == 0 {
 			if d1, is1 := oi.DocNum1Hit(); is1 {
 				c.R.Fail("docnum1hit", "%s: no live hit but DocNum1Hit %d", where, d1)
